@@ -329,9 +329,54 @@ def guard_lt_len(site):
     return None
 
 
+def _minus_const(e):
+    """(inner, c) if e = inner - c with a constant c >= 0"""
+    if e[0] == "bin" and e[1] in ("Sub", "SubUnchecked") and e[3][0] == "c" and isinstance(e[3][1], int) and e[3][1] >= 0:
+        return e[2], e[3][1]
+    return None
+
+
+def guard_loop_minus_const(site):
+    """T1 for `i - c` / `x[i - c]` with i the variable of `for i in lo..x.len()`, lo a constant >= c:
+    the subtraction cannot wrap, and i - c < i < len(x)"""
+    b = site.body
+    eb = ExprBuilder(b)
+    x = site.extra
+    if site.kind == "overflow" and x.get("op") == "Sub":
+        a, c = x.get("a"), x.get("b")
+        if a is not None and c is not None and c[0] == "c" and isinstance(c[1], int) and c[1] >= 0:
+            r = _range_loop_var(b, eb, a)
+            if r and r[0][0] == "c" and isinstance(r[0][1], int) and r[0][1] >= c[1]:
+                return "i - %d with i from a range starting at %d: no wrap" % (c[1], r[0][1])
+        return None
+    if site.kind == "bounds":
+        idx, ln = x.get("index"), x.get("len")
+        obj = ln[1] if ln is not None and ln[0] == "len" else None
+    elif site.kind == "index":
+        a = x.get("args") or []
+        if len(a) != 2:
+            return None
+        obj, idx = a
+    else:
+        return None
+    if idx is None or obj is None:
+        return None
+    mc = _minus_const(idx)
+    if mc is None:
+        return None
+    r = _range_loop_var(b, eb, mc[0])
+    if r and not r[2] and r[1][0] == "len" and canon(r[1][1]) == canon(obj):
+        return "index is i - %d with i the variable of `for i in _..x.len()` over the indexed object" % mc[1]
+    return None
+
+
 def t1_common(site):
     """guards shared by every ledger user"""
     x = site.extra
+    if site.kind in ("overflow", "bounds", "index"):
+        r = guard_loop_minus_const(site)
+        if r:
+            return r
     if site.kind == "index":
         a = x.get("args") or []
         if len(a) == 2 and a[1][0] == "agg" and a[1][1].endswith("RangeFull::RangeFull"):
@@ -357,6 +402,19 @@ def t1_common(site):
             r2 = _range_loop_var(site.body, ExprBuilder(site.body), a[1][2][0])
             if r2 and not r2[2] and r2[1][0] == "len" and canon(r2[1][1]) == canon(a[0]):
                 return "range bound is a loop variable below len() of the sliced object"
+    if site.kind in ("bounds", "index"):
+        # element j of the first half of x.split_at(k) with k - j a positive constant: j < k = its length
+        if site.kind == "bounds":
+            idx_, ln_ = x.get("index"), x.get("len")
+            obj_ = ln_[1] if ln_ is not None and ln_[0] == "len" else None
+        else:
+            a_ = x.get("args") or []
+            obj_, idx_ = (a_[0], a_[1]) if len(a_) == 2 else (None, None)
+        if obj_ is not None and idx_ is not None and obj_[0] == "field" and obj_[2] == "0" and obj_[1][0] == "call" and "split_at" in obj_[1][1] and len(obj_[1][2]) == 2 and idx_[0] != "agg":
+            from .expr import to_poly
+            d_ = to_poly(obj_[1][2][1]) - to_poly(idx_)
+            if d_.is_const() and d_.const_value() >= 1:
+                return "element j of the first half of x.split_at(k) with j < k"
     if site.kind == "index":
         # the second half of x.split_at(len(x)/c) sliced `[..len(x)/c]`: it has len - len/c >= len/c
         # elements for c >= 2
@@ -373,6 +431,9 @@ def t1_common(site):
             # the source is a copy (clone / to_vec are transparent in the expression tree) of the
             # destination itself, or a vector allocated with the destination's length
             def norm(e):
+                # a copy has the length of what it copies
+                while e[0] == "call" and len(e[2]) == 1 and e[1].rsplit("::", 1)[-1] in ("to_vec", "clone", "to_owned", "deref", "as_slice", "borrow", "as_ref"):
+                    e = e[2][0]
                 # `self` of a type whose Deref returns one of its fields is that field
                 b_ = site.body
                 prog = getattr(b_, "program", None)
@@ -396,6 +457,11 @@ def t1_common(site):
                 return "split point is len(x) / c of the split object (<= len)"
             if mid[0] == "call" and mid[1].split("::")[-1] == "min" and any(y[0] == "len" and canon(y[1]) == canon(obj) for y in mid[2]):
                 return "split point is min(len(x), _) of the split object"
+            # x.split_at(i + 1) with i the variable of `for i in _..x.len()`: i + 1 <= len
+            if mid[0] == "bin" and mid[1] in ("Add", "AddUnchecked") and mid[3][0] == "c" and mid[3][1] == 1:
+                r2 = _range_loop_var(site.body, ExprBuilder(site.body), mid[2])
+                if r2 and not r2[2] and r2[1][0] == "len" and canon(r2[1][1]) == canon(obj):
+                    return "split point is i + 1 with i the variable of `for i in _..x.len()` over the split object"
             # the second half of x.split_at(len(x)/c), split again at len(x)/c: it has
             # len - len/c >= len/c elements for c >= 2
             if obj[0] == "field" and obj[2] == "1" and obj[1][0] == "call" and "split_at" in obj[1][1] and len(obj[1][2]) == 2 and canon(obj[1][2][1]) == canon(mid) \
